@@ -6,6 +6,8 @@ package main
 
 import (
 	"fmt"
+	"go/ast"
+	"go/parser"
 	"go/types"
 	"sort"
 	"strings"
@@ -198,10 +200,33 @@ func (x *Exec) appendOp(s *State, in *ssa.Call) Val {
 		// appended elements when the addend is a one-element literal slice
 		if one, ok := x.singleElem(s, c.Args[1]); ok && one.K == vScalar {
 			s.assume(Eq(Select(newInner, x.add(off, base.Len), so), one.T))
+		} else if n := literalArrayLen(c.Args[1]); n >= 2 && n <= 8 {
+			// append(s, a, b, ...): the addend is a whole n-element array literal; element by element
+			addInner := Select(arr, add.Arr, as)
+			for i := int64(0); i < n; i++ {
+				s.assume(Eq(Select(newInner, x.add(x.add(off, base.Len), x.ilit(i)), so), Select(addInner, x.add(add.Off, x.ilit(i)), so)))
+			}
 		}
 		x.heapSet(s, key, Store(arr, r, newInner))
 	}
 	return Val{K: vSlice, Arr: r, Off: off, Len: newLen, Cap: capv, Typ: in.Type()}
+}
+
+// literalArrayLen: v is `arr[:]` of a local array literal (the varargs of append(s, a, b, ...)); its length, or 0.
+func literalArrayLen(v ssa.Value) int64 {
+	sl, ok := v.(*ssa.Slice)
+	if !ok || sl.Low != nil || sl.High != nil || sl.Max != nil {
+		return 0
+	}
+	al, ok := sl.X.(*ssa.Alloc)
+	if !ok {
+		return 0
+	}
+	at, ok := al.Type().(*types.Pointer).Elem().Underlying().(*types.Array)
+	if !ok {
+		return 0
+	}
+	return at.Len()
 }
 
 // singleElem recognises the SSA shape of append(s, v): a 1-element array literal sliced.
@@ -779,6 +804,7 @@ func (x *Exec) applyContract(s *State, in *ssa.Call, fc *FuncContract, callee *s
 			x.applyGhost(s, env, cl, pre, recv)
 		}
 	}
+	x.applyGhostSets(s, fc, env)
 	if streams && fc.DisjointOperands && recv != nil {
 		x.preserveOtherGhosts(s, pre, recv.v.T)
 		if res.K == vScalar && res.T.Sort == SIface && strings.HasSuffix(fc.Key, ".Select") {
@@ -1516,4 +1542,36 @@ func (p *Program) implFacts() string {
 		sb.WriteString(fmt.Sprintf("(assert (not (impl 0 %d)))\n", id))
 	}
 	return sb.String()
+}
+
+// applyGhostSets performs the `ghostset x.f = expr` clauses of a contract: in the function's own
+// verification where it returns (before its ensures clauses are checked), at call sites after the
+// frame has been havocked.
+func (x *Exec) applyGhostSets(s *State, fc *FuncContract, env *specEnv) {
+	for _, cl := range fc.clauses("ghostset") {
+		ex, err := parser.ParseExpr(cl.Name)
+		sel, ok := ex.(*ast.SelectorExpr)
+		if err != nil || !ok {
+			x.unsupported("ghostset %s: target must be x.f", cl.Name)
+			continue
+		}
+		obj, err := env.eval(sel.X)
+		if err != nil || obj.typ == nil {
+			x.unsupported("ghostset %s: %v", cl.Name, err)
+			continue
+		}
+		pt, ok := obj.typ.Underlying().(*types.Pointer)
+		if !ok || !x.p.Ctr.GhostFields[typeStr(pt.Elem())+"."+sel.Sel.Name] {
+			x.unsupported("ghostset %s: not a declared ghost field", cl.Name)
+			continue
+		}
+		v, err := env.evalInt(cl.Expr)
+		if err != nil {
+			x.unsupported("ghostset %s: %v", cl.Name, err)
+			continue
+		}
+		key := "F:" + typeStr(pt.Elem()) + "." + sel.Sel.Name
+		cur := x.heapSym(s, key, SArray(SInt, x.intSort()))
+		x.heapSet(s, key, Store(cur, obj.v.T, v))
+	}
 }
